@@ -61,6 +61,10 @@ def to_harness(idx, fam, c, seed):
     ds = (idx + seed) % 6 if fam in ("sets3", "lists3", "glob3", "glob4") else 0
     ds = 0 if ds == 5 else ds
     files = render_disk(c["disk"], c["pats"], big, forms=lambda f, i: (forms(f, i) if forms(f, i) <= 5 else 0) if ds < 3 else (5 if forms(f, i) == 5 else 0))
+    if idx % 2 == 0 and fam in ("glob3", "glob4"):
+        # directories whose names match the patterns: a pattern yields FILES (a folder "receipts.journal" is no journal)
+        files["dir.journal/.keep"] = ""
+        files["sub/dir.journal/.keep"] = ""
     root = NAMES[1]
     hc = {"id": str(idx), "files": files, "fresh": False, "dirstyle": ds,
           "depth": c["lim"] if c["lim"] <= len(c["disk"]) else 0,
